@@ -16,6 +16,7 @@ import (
 	"os"
 	"path/filepath"
 	"sort"
+	"strconv"
 	"strings"
 	"time"
 )
@@ -39,6 +40,10 @@ type c16Obs struct {
 	FinalShow    *c04Out
 	FinalDefault *c04Out
 	Crashed      bool
+	CrashOut     string // output of the run that crashed (replay aid)
+	// criterion "one pass fixes all instances of a kind": actions of a pass N+1 whose exact text
+	// pass N had logged in the same file, and how many of them fell under the alignment exception
+	RepeatedActions, RepeatedAlignment int
 }
 
 func c16Crashed(r RunResult) bool {
@@ -70,11 +75,13 @@ func c16Evaluate(ctx *Ctx, dir string, tf c04Files, targets []string) ([]c04Find
 	work := filepath.Join(dir, "iter")
 	tf.Materialize(work)
 	cur := tf
+	inputs := []c04Files{tf} // inputs[p-1] = the tree pass p started from
 	states := []string{tf.Hash()}
 	for p := 1; p <= c16MaxPasses; p++ {
 		r := RunPkglint(ctx, work, 20*time.Second, cfg.Args("fix")...)
 		if c16Crashed(r) {
 			obs.Crashed = true
+			obs.CrashOut = fmt.Sprintf("pass %d: exit %d signal %q\n%s%s", p, r.Exit, r.Signal, r.Stdout, firstLines(r.Stderr, 12))
 			return nil, obs
 		}
 		after := c04ReadTree(work)
@@ -92,8 +99,36 @@ func c16Evaluate(ctx *Ctx, dir string, tf c04Files, targets []string) ([]c04Find
 				add("C16/unbounded-growth/"+c04FileKind(k), fmt.Sprintf("%s grew from %d to %d bytes in %d passes", k, len(old), len(v), p))
 			}
 		}
-		if _, ok := after["cat"]; ok {
-			_ = ok
+		inputs = append(inputs, after)
+		// (b) monotone growth: a file that is longer after each of three consecutive passes
+		if p >= 3 {
+			for k, v := range after {
+				a, b, c := inputs[p-3][k], inputs[p-2][k], inputs[p-1][k]
+				if _, ok := inputs[p-3][k]; ok && len(v) > len(c) && len(c) > len(b) && len(b) > len(a) &&
+					strings.Count(v, "\n") > strings.Count(c, "\n") && strings.Count(c, "\n") > strings.Count(b, "\n") && strings.Count(b, "\n") > strings.Count(a, "\n") {
+					add("C16/monotone-growth/"+c16FileKind(k)+"/"+strings.Join(c16KindsOf(pass.Fixes, k), "+"),
+						fmt.Sprintf("[%s] %s got longer in each of the passes %d, %d, %d of pkglint -F: %d -> %d -> %d -> %d bytes (%d -> %d lines); last pass logged %q",
+							cfg, k, p-2, p-1, p, len(a), len(b), len(c), len(v), strings.Count(a, "\n"), strings.Count(v, "\n"), c16FirstOf(pass.Fixes, k)))
+				}
+			}
+		}
+		// (c) one pass fixes all instances of a kind
+		if p >= 2 {
+			for _, f := range c16RepeatedFixes(cfg, inputs[p-2], inputs[p-1], obs.Passes[p-2], pass, p) {
+				fs = append(fs, f)
+			}
+			had := map[string]bool{}
+			for _, d := range obs.Passes[p-2].Fixes {
+				had[filepath.Clean(d.Path)+"\x00"+d.Msg] = true
+			}
+			for _, d := range pass.Fixes {
+				if had[filepath.Clean(d.Path)+"\x00"+d.Msg] {
+					obs.RepeatedActions++
+					if c16AlignmentAction(d.Msg) {
+						obs.RepeatedAlignment++
+					}
+				}
+			}
 		}
 		for k := range after {
 			if _, ok := tf[k]; !ok {
@@ -165,6 +200,113 @@ func c16Evaluate(ctx *Ctx, dir string, tf c04Files, targets []string) ([]c04Find
 			fmt.Sprintf("[%s] pass %d of pkglint -F printed %d AUTOFIX lines (e.g. %q) and changed nothing, while -f prints none", cfg, len(obs.Passes), len(last.Fixes), last.Fixes[0].Raw))
 	}
 	return fs, obs
+}
+
+// c16AlignmentAction: the documented exception to "one pass fixes all instances
+// of a kind".  The alignment of a paragraph (varalignblock.go) depends on the
+// other lines of the paragraph, so a line that pass N left alone may have to be
+// re-indented in pass N+1 after its neighbours changed.  The exception is
+// narrow: an action "Replacing a with b." in which a and b consist of nothing
+// but spaces, tabs (and the backslash of a continuation line).
+func c16AlignmentAction(msg string) bool {
+	if !strings.HasPrefix(msg, "Replacing ") {
+		return false
+	}
+	m := reGoQuoted.FindAllString(msg, -1)
+	if len(m) != 2 {
+		return false
+	}
+	for _, q := range m {
+		u, err := strconv.Unquote(q)
+		if err != nil {
+			return false
+		}
+		if strings.Trim(u, " \t\\") != "" {
+			return false
+		}
+	}
+	return true
+}
+
+// c16WholeFileAction: actions that are logged for one line but rewrite the file as a whole
+func c16WholeFileAction(msg string) bool { return msg == "Sorting the whole file." }
+
+func c16FileLines(content string) []string {
+	return strings.Split(strings.TrimSuffix(content, "\n"), "\n")
+}
+
+// c16RepeatedFixes: pass N+1 (cur, started from curIn) logs an action with
+// exactly the same text in the same file as pass N (prev, started from
+// prevIn), on a line that was there, with the same text, when pass N ran.
+// Pass N fixed other instances of that kind in the file and left this one.
+func c16RepeatedFixes(cfg c04Cfg, prevIn, curIn c04Files, prev, cur c16Pass, p int) []c04Finding {
+	var out []c04Finding
+	prevHas := map[string]Diag{}
+	for _, d := range prev.Fixes {
+		prevHas[filepath.Clean(d.Path)+"\x00"+d.Msg] = d
+	}
+	seen := map[string]bool{}
+	for _, d := range cur.Fixes {
+		file := filepath.Clean(d.Path)
+		pd, ok := prevHas[file+"\x00"+d.Msg]
+		if !ok || c16AlignmentAction(d.Msg) || c04NoopAction(d.Msg) {
+			continue
+		}
+		if c16WholeFileAction(d.Msg) {
+			// the action concerns the file, not the line it is logged for: repeating it is a
+			// violation iff the pass before had the same lines to work on (sorting is
+			// idempotent on a multiset of lines; after a fix that changed a line, the
+			// order may legitimately change again)
+			a, b := c16FileLines(prevIn[file]), c16FileLines(curIn[file])
+			sort.Strings(a)
+			sort.Strings(b)
+			if strings.Join(a, "\n") != strings.Join(b, "\n") {
+				continue
+			}
+			key := "C16/same-fix-in-consecutive-passes/" + c16FileKind(file) + "/" + c04FixKind(d.Msg)
+			if !seen[key] {
+				seen[key] = true
+				out = append(out, c04Finding{key, fmt.Sprintf("[%s] pass %d of pkglint -F logs %q although pass %d logged %q for a file with exactly the same lines", cfg, p, d.Raw, p-1, pd.Raw)})
+			}
+			continue
+		}
+		ls := c16FileLines(curIn[file])
+		if d.Line1 < 1 || d.Line2 > len(ls) || d.Line2 < d.Line1 {
+			continue
+		}
+		text := strings.Join(ls[d.Line1-1:d.Line2], "\n")
+		old := "\n" + strings.Join(c16FileLines(prevIn[file]), "\n") + "\n"
+		if !strings.Contains(old, "\n"+text+"\n") {
+			continue // the line did not exist (or had another text) when the previous pass ran
+		}
+		key := "C16/same-fix-in-consecutive-passes/" + c16FileKind(file) + "/" + c04FixKind(d.Msg)
+		if seen[key] {
+			continue
+		}
+		seen[key] = true
+		out = append(out, c04Finding{key, fmt.Sprintf("[%s] pass %d of pkglint -F logs %q for a line (%q) that was already there when pass %d logged %q: one pass does not fix all instances of this kind",
+			cfg, p, d.Raw, text, p-1, pd.Raw)})
+	}
+	return out
+}
+
+func c16KindsOf(ds []Diag, file string) []string {
+	m := map[string]bool{}
+	for _, d := range ds {
+		if filepath.Clean(d.Path) == file {
+			m[c04FixKind(d.Msg)] = true
+		}
+	}
+	return sortedKeys(m)
+}
+
+func c16FirstOf(ds []Diag, file string) string {
+	for _, d := range ds {
+		if filepath.Clean(d.Path) == file {
+			return d.Raw
+		}
+	}
+	return ""
 }
 
 // c16FileKind: like c04FileKind, but buildlink3.mk and options.mk are kinds of their own
@@ -248,6 +390,9 @@ func c16WholeRun(ctx *Ctx, res *Result, rng *Rng, ntrees int) {
 			c04Augment(r.Fork(), tf, g.Pkgs, opts.Density, g.Features)
 			c04Augment2(r.Fork(), tf, g.Pkgs, opts.Density, g.Features)
 		}
+		if i%5 != 0 {
+			c16Augment(r.Fork(), tf, g.Pkgs, opts.Density, g.Features)
+		}
 		fs, obs := c16Evaluate(ctx, dir, tf, nil)
 		res.mu.Lock()
 		res.Evaluations++
@@ -272,10 +417,16 @@ func c16WholeRun(ctx *Ctx, res *Result, rng *Rng, ntrees int) {
 			res.Count("whole.fixsite "+k, 1)
 		}
 		for p, pass := range obs.Passes {
-			if p >= 1 {
-				for _, k := range c16Kinds(pass.Fixes) {
-					res.Count(fmt.Sprintf("whole.pass%d-action %s", p+1, k), 1)
-				}
+			// fix kinds fired per pass (action kinds: with -F only the AUTOFIX lines are printed)
+			for _, k := range c16Kinds(pass.Fixes) {
+				res.Count(fmt.Sprintf("whole.pass%d-action %s", p+1, k), 1)
+			}
+		}
+		res.Count("whole.actions repeated verbatim by the next pass in the same file", obs.RepeatedActions)
+		res.Count("whole.actions repeated verbatim … of these: white-space only (alignment, exempt)", obs.RepeatedAlignment)
+		for k, n := range g.Features {
+			if strings.HasPrefix(k, "c16.") {
+				res.Count("gen."+k, n)
 			}
 		}
 		maxGrowth := 0
@@ -404,6 +555,9 @@ func c16ReplayWhole(ctx *Ctx, res *Result, rep map[string]any) {
 	dir := filepath.Join(ctx.Work, "c16replay")
 	fs, obs := c16Evaluate(ctx, dir, tf, targets)
 	res.Evaluations++
+	if obs.Crashed {
+		fmt.Printf("== a run crashed (C01 territory; such trees are skipped by this check): %s\n", obs.CrashOut)
+	}
 	for p, pass := range obs.Passes {
 		fmt.Printf("== pass %d: pkglint %s   (exit %d)\n%s-- rewritten: %v\n", p+1, strings.Join(c04Cfg{Targets: targets}.Args("fix"), " "), pass.Res.Exit, pass.Res.Stdout, pass.Changed)
 	}
@@ -430,6 +584,7 @@ func runC16(ctx *Ctx) *Result {
 		nunit = 4000
 	}
 	c16Unit(ctx, res, rng.Fork(), nunit)
+	c16Fixers(ctx, res, rng.Fork())
 	c16WholeRun(ctx, res, rng.Fork(), ntrees)
 	c16Floors(res, ntrees)
 	return res
@@ -473,6 +628,14 @@ func c16Floors(res *Result, ntrees int) {
 			res.Broken = fmt.Sprintf("command-line target kind %q fired a fix only %d times", k, n)
 		}
 	}
+	// the shapes the round-4 criteria need (generator features: independent of the implementation)
+	manyGz, idAssign, foreign := 0, get("gen.c16.common-first-id+assignments"), get("gen.c16.common-foreign-users-1")+get("gen.c16.common-foreign-users-2")
+	for n := 2; n <= 12; n++ {
+		manyGz += get(fmt.Sprintf("gen.c16.plist-man-%d", n))
+	}
+	if res.Broken == "" && (manyGz < ntrees/4 || idAssign < ntrees/16 || foreign < ntrees/8) {
+		res.Broken = fmt.Sprintf("generator: %d PLISTs with two or more compressed manual pages, %d Makefile.common with code in the first paragraph, %d included from another directory (of %d trees)", manyGz, idAssign, foreign, ntrees)
+	}
 	var kinds []string
 	for d := range res.Distribution {
 		if strings.HasPrefix(d, "whole.fixsite ") {
@@ -492,6 +655,8 @@ func replayC16(ctx *Ctx, rep map[string]any) *Result {
 		c16ReplayWhole(ctx, res, rep)
 	case "unit":
 		c16ReplayUnit(ctx, res, rep)
+	case "fixer":
+		c16ReplayFixer(ctx, res, rep)
 	}
 	return res
 }
